@@ -621,6 +621,15 @@ impl Campaign for C07 {
                 values.push(format!("({} <~ (0..1))", s));
             }
         }
+        // starts far beyond the sequence (and beyond the whole store): an index taken straight from the program
+        for t in targets {
+            for r in ["(5000..5001)", "(2147483646 ..< 2147483647)", "(5000..2)", "(--5000 .. --4000)"] {
+                let s = format!("({} <~ {})", t, r);
+                values.push(s.clone());
+                values.push(format!("({} <> 5)", s));
+                values.push(format!("({},)", s));
+            }
+        }
         for extra in [
             "\"\u{65e5}\u{672c}\u{8a9e}\"", "(\"\u{65e5}\u{672c}\u{8a9e}\" <~ (1..2))", "(\"h\u{e9}llo\" <~ (1..3))", "(3..1)", "(1..3)", "(1.5 .. 3)", "(1 >..< 1)", ":ka.kb", "({ $ } ~ 1)", "(5 ~ 6)", "(,)", "((1 2) (3 4))", "(:ka = (,))",
             ":na\u{ef}ve", "(:na\u{ef}ve = 5)", ":ab.na\u{ef}ve", "(:\u{65e5}\u{672c} = (1 2))", "\"\u{e9}\"", "(1 <> (2 <> 3))", "2147483647", "(--2147483647 - 1)", "1.5", "()", "$?", "#1", "{ $ }", "(1 = 2)", "(:ka = :kb = 3)", "\"\"", "(\"ab\" <> \"cd\")", "((,) <> (,))",
@@ -664,6 +673,11 @@ impl Campaign for C07 {
             mk(false, "(33 .. 2147483646) ~# (,)"),
             mk(true, "(33 .. 2147483646) ~# (,)"),
             mk(false, "((1 2 3) <~ (0 .. 1000000000000000000000.0)) ~# (,)"),
+            // regression seeds of D19 (fixed): a one-element float range too large for `+ 1` to advance
+            mk(false, "(100000000000000000000.0 .. 100000000000000000000.0) ~# (,)"),
+            mk(true, "(100000000000000000000.0 .. 100000000000000000000.0) ~# (,)"),
+            mk(false, "(9007199254740992.0 .. 9007199254740993.0) ~# (,)"),
+            mk(true, "(9007199254740992.0 .. 9007199254740993.0) ~# (,)"),
         ]
     }
 
